@@ -2,7 +2,11 @@
 """Regenerates /verif/MANIFEST.json from harness/registry.json and tools/na.json."""
 import json, os
 V = os.path.dirname(os.path.dirname(os.path.abspath(__file__)))
-reg = json.load(open(os.path.join(V, "harness", "registry.json")))
+reg = {}
+rd = os.path.join(V, "harness", "registry")
+for f in sorted(os.listdir(rd)):
+    if f.endswith(".json"):
+        reg[f[:-5]] = json.load(open(os.path.join(rd, f)))
 na = json.load(open(os.path.join(V, "tools", "na.json")))
 props = [json.loads(l) for l in open(os.path.join(V, "properties.jsonl"))]
 checks = []
